@@ -150,6 +150,10 @@ def row_defect(types, cells):
   for t, v in zip(types, cells):
     if is_error(v):
       return 'raises' if not is_list_type(t) else 'raises-list'
+    if (t or '').startswith(('Ref:', 'RefList:')):
+      vals = v if isinstance(v, (list, tuple)) else [v]
+      if any(isinstance(x, int) and not isinstance(x, bool) and x < 0 for x in vals):
+        return 'negref'
     if not is_list_type(t):
       if not hashable(v):
         return 'raises'
@@ -221,6 +225,12 @@ def oracle_table(e, info):
       out.append(('missing-row', '%s has no row for key %r of source rows %r' % (sid, k, rows)))
   raises = sorted(r for r, d in bad.items() if d == 'raises' or (d == 'raises-list' and r in in_some_group))
   tuples = sorted(r for r, d in bad.items() if d == 'tuple')
+  negrefs = sorted(r for r, d in bad.items() if d == 'negref')
+  if negrefs:
+    out.append(('negative-ref-key', '%s: source rows %r have a negative row id in a Reference group-by cell; the record '
+                'action the helper formula issues on the summary table takes it for a temporary row id ("Reference to '
+                'unknown temporary row id") and the formula raises: the rows are in no group or in the group of their '
+                'previous key' % (sid, negrefs)))
   if raises:
     out.append(('helper-raises', '%s: source rows %r have an unhashable or error-valued group-by cell; the helper '
                 'formula raises for them, so they are in no group or still in the group of their previous key'
@@ -676,6 +686,8 @@ def preclassify(kind, v, colobj, lookup_mod):
       if isinstance(v, tuple):
         return ('SKIP', 'tuple-in-scalar-column')      # domain of the known finding C12-tuple-key
       k = conv_key(colobj, v, lookup_mod)
+      if hasattr(colobj, '_target_table') and isinstance(k, int) and not isinstance(k, bool) and k < 0:
+        return ('SKIP', 'negative-ref-key')          # domain of the known finding C12-negative-ref-key
       return ('A', k) if hashable(k) else ('U',)
     if isinstance(v, (bytes, str)):
       return ('A', v)
@@ -688,6 +700,8 @@ def preclassify(kind, v, colobj, lookup_mod):
     ks = [conv_key(colobj, x, lookup_mod) for x in elems]
     if not all(hashable(k) for k in ks):
       return ('SKIP', 'element-converts-to-unhashable')
+    if hasattr(colobj, '_target_table') and any(isinstance(k, int) and not isinstance(k, bool) and k < 0 for k in ks):
+      return ('SKIP', 'negative-ref-key')
     try:
       raw_sorted = sorted(set(elems))
     except TypeError:
@@ -1094,6 +1108,11 @@ WITNESSES = {
     [['BulkAddRecord', 'T', [None, None], {'B': [['L', 'x', 'y'], ['L', 'x', 'y']]}]],
     [['ModifyColumn', 'T', 'B', {'type': 'Any'}]]],
     'bundle': [['CreateViewSection', 1, 0, 'record', [2], None]], 'kind': 'tuple-key'},
+  'negative-ref-key': {'history': [
+    [['AddTable', 'T', _t([('Y', 'Int'), ('A', 'Text')])]],
+    [['BulkAddRecord', 'T', [None, None], {'Y': [-1, 0], 'A': ['a', 'b']}]],
+    [['ModifyColumn', 'T', 'Y', {'type': 'Ref:T'}]]],
+    'bundle': [['CreateViewSection', 1, 0, 'record', [2], None]], 'kind': 'negative-ref-key'},
   'stale-groupby-column': {'history': [
     [['AddTable', 'T', _t([('A', 'Int'), ('D', 'Int')])]],
     [['BulkAddRecord', 'T', [None, None], {'A': [1, 2], 'D': [5, 6]}]],
@@ -1148,7 +1167,8 @@ ASSUMPTIONS = ['C12_settle_terminates is about one summary table with fixed sour
                'exactness (C12_settled_exact_partial) assumes that no helper formula raises (no_raise: every group-by cell '
                'readable, scalar ones hashable); the two refuted statements are the known finding C12-helper-raises',
                'the model assumes a row added by the helper formula stores the key that was looked up (fails for tuples in a '
-               'scalar column: known finding C12-tuple-key; such cases are skipped and counted) and that the group-by columns '
+               'scalar column: known finding C12-tuple-key, and for negative numbers in a Reference cell, which the record '
+               'action takes for temporary row ids: known finding C12-negative-ref-key; such cases are skipped and counted) and that the group-by columns '
                'of the summary table exist in the source (otherwise: finding C12-stale-groupby-column, fixed by cda1c6e; its '
                'witness stays in the corpus and the oracle kind stale-groupby-column is an ordinary violation)',
                'the engine re-evaluates only dirty helper cells: the theorems are about full re-evaluation (settle_loop); '
